@@ -21,7 +21,10 @@ EXTENDS Integers, Sequences, FiniteSets, FiniteSetsExt, TLC, Json, IOUtils
 Table == JsonDeserialize(IOEnv.LEX_TABLE)
 Cases == ndJsonDeserialize(IOEnv.CASES_FILE)
 
-L == INSTANCE Lex WITH Patterns <- Table.patterns
+\* the first-character candidate table, computed once from the patterns (see Lex!AsciiCand)
+L0 == INSTANCE Lex WITH Patterns <- Table.patterns, AsciiCand <- <<>>
+Cands == L0!CandTuple(0)
+L == INSTANCE Lex WITH Patterns <- Table.patterns, AsciiCand <- Cands
 
 VARIABLES i, bad
 vars == <<i, bad>>
